@@ -35,7 +35,7 @@ fn canonical_scenario(p: &Program, variant: u32) -> C12Scenario {
     if variant == 1 {
         env.insert("LANG".to_string(), "tr_TR.UTF-8".to_string());
         env.insert("TZ".to_string(), "Pacific/Chatham".to_string());
-        env.insert("HOME".to_string(), "/nonexistent".to_string());
+        env.insert("USER".to_string(), "nobody".to_string());
         env.insert("MSIM_PADDING".to_string(), "x".repeat(3000));
         cwd = "/usr/lib".to_string();
     }
@@ -56,9 +56,33 @@ fn canonical_scenario(p: &Program, variant: u32) -> C12Scenario {
 
 /// Run one scenario in an executor.  When the executor dies, re-run job by job (each alone,
 /// same thread configuration) so that the death is attributed to a job.
+static PRIVATE_BASE: std::sync::OnceLock<String> = std::sync::OnceLock::new();
+static PRIVATE_SEQ: std::sync::atomic::AtomicU64 = std::sync::atomic::AtomicU64::new(0);
+
+/// Remove the per-driver directory that holds the executors' private temp/home directories.
+pub fn cleanup_private() {
+    if let Some(b) = PRIVATE_BASE.get() {
+        let _ = std::fs::remove_dir_all(b);
+    }
+}
+
 pub fn run_scenario(sc: &C12Scenario) -> JobsResult {
     let input = serde_json::to_string(sc).unwrap();
-    let out = run_exec("exec-jobs", &input, &sc.env, &sc.cwd, &[]);
+    // Every executor gets its own empty temp / home / cache directory: state that code under
+    // test might keep on disk (a cache) is then local to the scenario, where earlier jobs of
+    // the same process — under the scenario's control — are the only ones that can have
+    // written it, and concurrently running executors cannot see each other.
+    let base = PRIVATE_BASE.get_or_init(|| crate::pool::scratch_base("c12priv"));
+    let n = PRIVATE_SEQ.fetch_add(1, std::sync::atomic::Ordering::SeqCst);
+    let private = format!("{base}/x{n}");
+    let _ = std::fs::create_dir_all(format!("{private}/tmp"));
+    let _ = std::fs::create_dir_all(format!("{private}/home/.cache"));
+    let tmp = format!("{private}/tmp");
+    let home = format!("{private}/home");
+    let cache = format!("{private}/home/.cache");
+    let extra: Vec<(&str, &str)> = vec![("TMPDIR", &tmp), ("TMP", &tmp), ("TEMP", &tmp), ("HOME", &home), ("XDG_CACHE_HOME", &cache)];
+    let out = run_exec("exec-jobs", &input, &sc.env, &sc.cwd, &extra);
+    let _ = std::fs::remove_dir_all(&private);
     if out.code == Some(0) {
         if let Ok(r) = serde_json::from_str::<JobsResult>(&out.stdout) {
             return r;
@@ -224,7 +248,7 @@ fn random_env(rng: &mut Rng) -> (BTreeMap<String, String>, String) {
         env.insert("TZ".into(), rng.pick(&["UTC", "Pacific/Chatham", "America/St_Johns"]).to_string());
     }
     if rng.chance(1, 3) {
-        env.insert("HOME".into(), rng.pick(&["/root", "/nonexistent", "/tmp"]).to_string());
+        env.insert("USER".into(), rng.pick(&["root", "nobody", "builder"]).to_string());
     }
     if rng.chance(1, 3) {
         env.insert("RUST_BACKTRACE".into(), rng.pick(&["0", "1", "full"]).to_string());
